@@ -49,7 +49,7 @@ def C06(ctx):
     ctx.run(cases, nontrivial=miss, runtime=False)
     ctx.rules.append('family X: a needed type missing behind a binding (directly and two levels down), behind a "*" struct field carrying a foreign struct tag, '
                      'in the first / second of two injector files of one package; family B/S near misses (no binding for an interface, *F from a value struct)')
-    ctx.run(ctx.export('FamilyX(p, {"star-foreign-tag-missing", "star-foreign-tag-ok", "two-files-first-missing", "two-files-second-missing", "two-files-ok", "missing-behind-bind", "missing-behind-bind-2", "alias-satisfies", "defined-type-does-not-satisfy", "pointer-does-not-satisfy-value", "value-does-not-satisfy-pointer"})'), nontrivial=miss, runtime=False, check=True)
+    ctx.run(ctx.export('FamilyX(p, {"star-foreign-tag-missing", "star-foreign-tag-ok", "two-files-first-missing", "two-files-second-missing", "two-files-ok", "missing-behind-bind", "missing-behind-bind-2", "alias-satisfies", "defined-type-does-not-satisfy", "pointer-does-not-satisfy-value", "value-does-not-satisfy-pointer", "multi-name-var-sets-missing"})'), nontrivial=miss, runtime=False, check=True)
     near = [c for c in ctx.export('FamilyB(p)') + ctx.export('FamilyS(p)') if miss(c)]
     ctx.run(near, nontrivial=miss, runtime=False)
     if not ctx.quick:
@@ -80,6 +80,10 @@ def C07(ctx):
     ctx.run(big, nontrivial=cyc, runtime=False)
     ctx.rules.append('split: the providers of every digraph (n=3; sample of n=4 in thorough) distributed over two sets joined by a set without providers of its own; '
                      'scaling: diamond lattices of depth 10/20/40 (2^40 paths) and chains of depth 50/150, with and without a back edge, each under a 20 s timeout (normal: well under 1 s)')
+    ctx.rules.append('random digraphs on 5 and 6 providers (300 / 3000 edge sets of about n+2 edges, seed-driven): cycles entered from outside at depth >= 3 through nodes with several parameters')
+    rnd = ctx.export('FamilyGRand(p, 5, %d, 7)' % (200 if ctx.quick else 2000)) + ctx.export('FamilyGRand(p, 6, %d, 8)' % (150 if ctx.quick else 1500))
+    ctx.design_analyze(rnd, limit=150 if ctx.quick else 600, label='random digraphs n=5,6 ', free_roots=False)
+    ctx.run(rnd, nontrivial=cyc, runtime=False)
     sp = ctx.export('FamilyGSplit(p, 3)', pre_sample=300 if ctx.quick else None)
     ctx.run(sp, nontrivial=cyc, runtime=False)
     if not ctx.quick:
